@@ -436,7 +436,7 @@ class History:
                         must = False
                     h -= h * 3
                 elif k == "fill_n_weight_shape":
-                    v = self.values_for(h, 4)
+                    v = self.values_for(h, 4, grow=h.is_adaptive() and rng.random() < 0.6)  # a refused batch may not leave the bins grown
                     h.fill_n(v[:, 0] if h.ndim == 1 else v, np.ones(3))
                 elif k == "fill_n_cols":
                     h.fill_n(np.zeros((3, h.ndim + 1)))
